@@ -157,7 +157,8 @@ def r2(ctx, R):
     cs = ctx.func("DynamicBase.clear_subs_rootitems")
     R.inst("clear_subs_rootitems clears each root through root.parent.clear_itemspace_at(root.argvalues_if)")
     c = q.calls(cs, name="clear_itemspace_at")
-    if not c or norm(c[0].func.value) != "root.parent":
+    lpv = [norm(n.target) for n in walk_local(cs.node) if isinstance(n, ast.For)]
+    if not c or not lpv or q.anorm(cs, c[0].func.value) != "%s.rootspace.parent" % lpv[0]:
         R.bad(cs, cs.node, "roots are not cleared through their parent", stmt="clear_itemspace_at")
     ci = ctx.func("ItemSpaceParent.clear_itemspace_at")
     R.inst("clear_itemspace_at clears the instance node with its dependents")
@@ -273,9 +274,9 @@ def r4(ctx, R):
     re-attached (`cache._impl = self; self.interface = cache`) before Impl.__init__; nested
     parents share the root's cache."""
     oe = ctx.func("ItemSpaceParent.on_eval_formula")
-    dv = [norm(v) for v in assigned_value(oe, "dkey")]
+    dv = sorted((norm(v), tuple(sorted(g))) for x in assigned_value(oe, "dkey") for v, g in q.arms(oe, x))
     R.inst("on_eval_formula: dkey = parent's dynamic_key + (key,)")
-    if dv != ["(self.dynamic_key if self.is_dynamic() else ()) + (key,)"]:
+    if dv != [("(key,)", (("self.is_dynamic()", "F"),)), ("self.dynamic_key + (key,)", (("self.is_dynamic()", "T"),))]:
         R.bad(oe, oe.node, "handle cache key is not the chain of argument tuples: %s" % dv, stmt="dkey =")
     R.inst("on_eval_formula: handle cached under dkey and looked up under dkey")
     ws = [st for st, t in q.subscript_writes(oe, "dynamic_cache")]
